@@ -1536,6 +1536,16 @@ def stream_cli_malformed(seed, tier, workdir, stream):
             for w in ["empty", "truncated", "binary", "not-json", "nested-deep", "bom"]:
                 doc, rooms = gen_simple(r, rooms_mode=0)
                 cases.append({"kind": "garbage", "doc": doc, "what": w, "cde": r.random() < 0.5})
+        # a complete, valid document with bytes the JSON grammar does not allow around it (in the right format
+        # for the reader that gets it, so that only those bytes stand between the file and an accepted run)
+        for w in [["tail-brace", "tail-bracket", "tail-comma", "tail-letter", "tail-second-document", "tail-number-after-space", "tail-nul",
+                   "head-letter", "head-comma", "comment-tail", "tail-brace-rooms-file"][(b * 3 + k) % 11] for k in range(3)]:
+            if r.random() < 0.5 and not w.endswith("rooms-file"):
+                doc, opts, info = gen_export(r)
+                cases.append({"kind": "garbage", "doc": doc, "opts": opts, "what": w, "cde": True})
+            else:
+                doc, rooms = gen_simple(r, rooms_mode=0)
+                cases.append({"kind": "garbage", "doc": doc, "what": w, "cde": False})
     return cases
 
 
@@ -1613,8 +1623,17 @@ def lines_cli_malformed(cases, workdir, stream, binary):
                 raw = json.dumps(c["doc"]).encode()
                 w = c["what"]
                 data = {"empty": b"", "truncated": raw[: len(raw) // 2], "binary": bytes(range(256)) * 3, "not-json": b"participants: []\ncourses: []\n",
-                        "nested-deep": b"[" * 300 + b"]" * 300, "bom": b"\xef\xbb\xbf" + raw}[w]
+                        "nested-deep": b"[" * 300 + b"]" * 300, "bom": b"\xef\xbb\xbf" + raw,
+                        "tail-brace": raw + b"}", "tail-bracket": raw + b"\n]", "tail-comma": raw + b",", "tail-letter": raw + b"\nx", "tail-second-document": raw + b"\n" + raw,
+                        "tail-number-after-space": raw + b" 1", "tail-nul": raw + b"\x00", "head-letter": b"x" + raw, "head-comma": b"," + raw,
+                        "comment-tail": raw + b" // end", "tail-brace-rooms-file": raw}[w]
                 open(inp, "wb").write(data)
+                if w == "tail-brace-rooms-file":
+                    open(os.path.join(d, "rooms.json"), "wb").write(json.dumps([{"name": "A", "capacity": 100, "quantity": 50}]).encode() + b"]")
+                    args += ["--rooms-file", os.path.join(d, "rooms.json")]
+                if c.get("opts"):
+                    ca = cde_args(c["opts"], None, 1)
+                    args += ca[ca.index("1") + 1:]      # without "--cde --num-threads 1": given below / already there
                 args += (["--cde"] if c.get("cde") else []) + [inp, outp]
             rc, so, se, to = run_bin(binary, args)
             refused = (not to) and rc in allowed and "panicked" not in se and not os.path.exists(outp) and ("ERROR" in se or rc == 2)
@@ -1651,6 +1670,9 @@ def stream_cli_fault(seed, tier, workdir, stream):
             # dies in `print!` (status 101) — in particular it never turns an output fault into status 0
             if fault != "bad-option-before-output":
                 cases.append({"fmt": fmt, "fault": fault, "print": True, "limit": 50, "closed": True})
+            # the exit status does not depend on what is logged: logging switched off / errors only / verbose
+            for k, lg in enumerate(["off", "error", "debug"]):
+                cases.append({"fmt": fmt, "fault": fault, "print": k == 1, "limit": r.choice([1, 50, 200]), "rust_log": lg})
     return cases
 
 
@@ -1705,18 +1727,19 @@ def lines_cli_fault(cases, workdir, stream, binary):
                     signal.signal(signal.SIGXFSZ, signal.SIG_IGN)
                     resource.setrlimit(resource.RLIMIT_FSIZE, (lim, lim))
             closed = bool(c.get("closed"))
+            env = dict(os.environ, RUST_LOG=c["rust_log"]) if c.get("rust_log") else None
             try:
                 if closed:
                     pr_, pw_ = os.pipe()
                     os.close(pr_)
                     try:
-                        p = subprocess.run([binary] + args + [inp, outp], stdout=pw_, stderr=subprocess.PIPE, timeout=30, preexec_fn=preexec)
+                        p = subprocess.run([binary] + args + [inp, outp], stdout=pw_, stderr=subprocess.PIPE, timeout=30, preexec_fn=preexec, env=env)
                     finally:
                         os.close(pw_)
                     rc, so, se = p.returncode, "", p.stderr.decode("utf-8", "replace")
                 else:
                     tail = [outp] if fault == "bad-option-before-output" else [inp, outp]
-                    p = subprocess.run([binary] + args + tail, stdout=subprocess.PIPE, stderr=subprocess.PIPE, timeout=30, preexec_fn=preexec)
+                    p = subprocess.run([binary] + args + tail, stdout=subprocess.PIPE, stderr=subprocess.PIPE, timeout=30, preexec_fn=preexec, env=env)
                     rc, so, se = p.returncode, p.stdout.decode("utf-8", "replace"), p.stderr.decode("utf-8", "replace")
             except subprocess.TimeoutExpired:
                 rc, so, se = None, "", "timeout"
